@@ -54,6 +54,8 @@ type fsTarget struct {
 	literals       map[string]string   // Go type text of a composite literal -> Lean text (the fields are NOT translated:
 	// an abstraction, e.g. an error value of which only the kind matters)
 	asserts map[string]string // interface type text -> Lean function: `v, ok := x.(T)` becomes `let (v, ok) := f x`
+	idents  map[string]string // package-level identifiers (sentinel errors ..) by Go name -> Lean text
+	convs   map[string]string // conversions `T(x)` by Go type text -> Lean function
 	asFuncs map[string]string // Go type text of `var v T` -> Lean function f : Option Err -> Option _ :
 	// `errors.As(e, &v)` reads `(f e).isSome`, and every later use of v reads `(f e)` (v must have no other assignment)
 }
@@ -77,6 +79,13 @@ type fsTr struct {
 	varTypes map[string]string // Go name -> Go type text of `var x T`
 	asSubst  map[string]string // Go name -> Lean text standing for it after errors.As(e, &name)
 	loggers  map[string]bool   // locals bound to the result of a dropped call
+	doDepth  int               // nesting of the inner blocks introduced for `defer`
+	depthOf  map[string]int    // Lean name of a mutable -> doDepth at its declaration
+}
+
+func (g *fsTr) markMutable(l string) {
+	g.mutable[l] = true
+	g.depthOf[l] = g.doDepth
 }
 
 func (g *fsTr) monad() string {
@@ -114,7 +123,7 @@ func (g *fsTr) declare(name string) string {
 	}
 	n := g.used[name]
 	g.used[name] = n + 1
-	lean := name
+	lean := g2lIdent(name) // a Go name may be a Lean keyword (`in`, `from`, `at` ..)
 	if n > 0 {
 		lean = fmt.Sprintf("%s_%d", name, n)
 	}
@@ -129,7 +138,7 @@ func (g *fsTr) fresh(name string) string {
 	if n > 0 {
 		return fmt.Sprintf("%s_%d", name, n)
 	}
-	return name
+	return g2lIdent(name)
 }
 
 func (g *fsTr) lookup(id *ast.Ident) (string, bool) {
@@ -216,6 +225,19 @@ func (g *fsTr) call(c *ast.CallExpr) (string, fsCallee) {
 		}
 	}
 	if !found {
+		if f, isConv := g.t.convs[name]; isConv && len(c.Args) == 1 {
+			return "(" + f + " " + g.expr(c.Args[0]) + ")", fsCallee{nres: 1}
+		}
+		// a method on the result of a call (`info.Mode().IsRegular()`)
+		if sel, ok := c.Fun.(*ast.SelectorExpr); ok {
+			if inner, isCall := sel.X.(*ast.CallExpr); isCall {
+				if ce, found = g.t.methods[sel.Sel.Name]; found {
+					args = append(args, g.expr(inner))
+				}
+			}
+		}
+	}
+	if !found {
 		// a method on a value reached through fields (`d.Digest.String()`)
 		if sel, ok := c.Fun.(*ast.SelectorExpr); ok {
 			if _, isSel := sel.X.(*ast.SelectorExpr); isSel {
@@ -262,6 +284,9 @@ func (g *fsTr) expr(e ast.Expr) string {
 			g.usedCons[x.Name] = true
 			return x.Name
 		}
+		if l, ok := g.t.idents[x.Name]; ok {
+			return l
+		}
 		g.fail(e, "identifier %s: neither a local nor a constant of the file", x.Name)
 	case *ast.BasicLit:
 		switch x.Kind {
@@ -269,7 +294,12 @@ func (g *fsTr) expr(e ast.Expr) string {
 			v, _ := strconv.Unquote(x.Value)
 			return leanStr(v)
 		case token.INT:
-			return "(" + x.Value + " : Int)"
+			// Go spells octal / hex / binary literals its own way: print the value
+			n, err := strconv.ParseInt(strings.ReplaceAll(x.Value, "_", ""), 0, 64)
+			if err != nil {
+				g.fail(x, "integer literal %s", x.Value)
+			}
+			return fmt.Sprintf("(%d : Int)", n)
 		}
 	case *ast.SelectorExpr:
 		// a field of a local (never a package-qualified name: those only occur as callees and types)
@@ -312,6 +342,8 @@ func (g *fsTr) expr(e ast.Expr) string {
 				return "(" + g.expr(x.X) + " != " + g.expr(x.Y) + ")"
 			}
 			return "(" + g.expr(x.X) + " == " + g.expr(x.Y) + ")"
+		case token.AND:
+			return "(bitAnd " + g.expr(x.X) + " " + g.expr(x.Y) + ")"
 		case token.LAND:
 			return "(" + g.expr(x.X) + " && " + g.expr(x.Y) + ")"
 		case token.LOR:
@@ -446,7 +478,7 @@ func (g *fsTr) assign(ind int, x *ast.AssignStmt) {
 				tmp := l + "_init"
 				pat = append(pat, tmp)
 				later = append(later, fmt.Sprintf("let mut %s := %s", l, tmp))
-				g.mutable[l] = true
+				g.markMutable(l)
 			} else {
 				pat = append(pat, l)
 			}
@@ -466,6 +498,17 @@ func (g *fsTr) assign(ind int, x *ast.AssignStmt) {
 		}
 		tmp := fmt.Sprintf("%s_new%d", cur, i)
 		pat = append(pat, tmp)
+		if g.depthOf[cur] < g.doDepth {
+			// the variable lives outside the inner block a `defer` introduced: Lean cannot assign it from
+			// here. The block gets a copy of its own; sound because after the block only deferred calls run,
+			// and a deferred function that reads a variable assigned after its defer statement is refused
+			// (the named results, which it may read, are never assigned in a function with defer)
+			nl := g.fresh(id.Name)
+			g.scope.names[id.Name] = nl
+			g.markMutable(nl)
+			later = append(later, fmt.Sprintf("let mut %s := %s", nl, tmp))
+			continue
+		}
 		later = append(later, fmt.Sprintf("%s := %s", cur, tmp))
 	}
 	if len(pat) == 1 {
@@ -547,6 +590,20 @@ func (g *fsTr) deferred(ind int, d *ast.DeferStmt) {
 			}
 			return true
 		})
+		ast.Inspect(fn.Body, func(n ast.Node) bool {
+			if id, ok := n.(*ast.Ident); ok && g.assigned[id.Name] > 0 {
+				isResult := false
+				for _, nm := range g.named {
+					if nm == id.Name {
+						isResult = true
+					}
+				}
+				if _, local := g.lookup(id); local && !isResult {
+					g.fail(id, "a deferred function reads %s, which is assigned elsewhere in the function", id.Name)
+				}
+			}
+			return true
+		})
 		g.push()
 		g.stmts(ind, fn.Body.List, true)
 		g.pop()
@@ -599,7 +656,9 @@ func (g *fsTr) stmts(ind int, list []ast.Stmt, inDeferred bool) {
 			res := tuple(rs)
 			g.line(ind, fmt.Sprintf("let %s ← (do", res))
 			g.push()
+			g.doDepth++
 			g.stmts(ind+2, list[i+1:], false)
+			g.doDepth--
 			g.pop()
 			g.line(ind+2, ": "+g.monad()+" ("+g.t.ret+"))")
 			for j, n := range g.named {
@@ -631,7 +690,7 @@ func (g *fsTr) stmts(ind int, list []ast.Stmt, inDeferred bool) {
 						g.fail(x, "var of type %s: no zeroValues entry", ty)
 					}
 					l := g.declare(n.Name)
-					g.mutable[l] = true
+					g.markMutable(l)
 					g.line(ind, fmt.Sprintf("let mut %s := %s", l, z))
 				}
 			}
@@ -705,7 +764,7 @@ func fsTranslate(t *fsTarget) (string, map[string]bool) {
 	f := parseFile(t.file)
 	fd := mustFunc(f, t.file, t.recv, t.fn)
 	g := &fsTr{t: t, consts: consts(f), used: map[string]int{}, assigned: map[string]int{}, usedCons: map[string]bool{},
-		mutable: map[string]bool{}, varTypes: map[string]string{}, asSubst: map[string]string{}, loggers: map[string]bool{}}
+		depthOf: map[string]int{}, mutable: map[string]bool{}, varTypes: map[string]string{}, asSubst: map[string]string{}, loggers: map[string]bool{}}
 	ast.Inspect(fd.Body, func(n ast.Node) bool {
 		if _, ok := n.(*ast.DeferStmt); ok {
 			g.hasDefer = true
@@ -755,14 +814,14 @@ func fsTranslate(t *fsTarget) (string, map[string]bool) {
 					}
 					g.named = append(g.named, n.Name)
 					l := g.declare(n.Name)
-					g.mutable[l] = true
+					g.markMutable(l)
 					g.line(1, fmt.Sprintf("%s %s := %s", kw, l, z))
 					continue
 				}
 				g.named = append(g.named, n.Name)
 				l := g.declare(n.Name)
 				if !g.hasDefer {
-					g.mutable[l] = true
+					g.markMutable(l)
 				}
 				g.line(1, fmt.Sprintf("%s %s : Option GoLite.Err := none", kw, l))
 			}
